@@ -24,6 +24,12 @@ After EVERY write operation (add_*, update_*, rejected update, install_adf*):
                    component) are each read back against their own arrays; keys written by one install_* call (multi-block
                    ADF15 incl. several CHEXC blocks on one grid, multi-charge ADF11, multi-block ADF12) must each carry
                    their own block - judged convention-free by order relations (see _install_cross_key);
+  empty branches   update_* dictionaries carrying EMPTY sub-dictionaries at every nesting level (empty class / species / charge /
+                   transition branch; first, middle, last in dict order) next to non-empty ones: every non-empty key must be
+                   written, nothing else touched (a clean exception is counted as refusal and not judged);
+  install_files    every front-end also through install_files() with lower / upper / mixed-case configuration keys inside the
+                   same last-write-wins histories; a call that returns normally without reaching repository.update_* while the
+                   direct front-end installs keys from the same arguments is a violation;
   hostile spelling transition levels whose lower-cased string forms differ ('03' / ' 3' / '+3' / '3.0' / 2.5 / '3_0' vs '3')
                    are different keys: after writing one, the others must raise RuntimeError or keep their own data.
 install_adf* front-ends are fed synthetic ADF files (vf/adf_c06.py); the arguments they hand to repository.update_* are
@@ -87,7 +93,8 @@ REQUIRED = {"readback": 1000, "others_untouched": 8000, "never_written": 8000, "
             "audit_write_open": 1000, "audit_mkdir": 1000, "home_clean": 40, "rejected_update": 60,
             "rejected_intact": 600, "install_call": 40, "install_readback": 60, "install_download_fetch": 25,
             "install_download_cache_hit": 15, "rewrite_one_component": 150, "hostile_spelling_probe": 1500,
-            "install_cross_key_distinct": 150}
+            "install_cross_key_distinct": 150, "update_with_empty_branches": 100, "empty_branch": 200,
+            "install_files_key_upper": 8, "install_files_key_mixed": 8}
 
 # ----------------------------------------------------------------------------------------------------------------
 # independent species table: variable name in cherab.core.atomic.elements -> (symbol, Z)
@@ -340,6 +347,41 @@ def _mutate_one(rng, kind, data):
     return new, "%s:%s" % (mode, f)
 
 
+def _empty_branches(rng, pools, items):
+    """1-3 empty branches for an update dictionary: a sibling of an existing entry at a random nesting level
+    (another species / charge / transition / metastable / class with nothing below it), placed first, in the middle or last."""
+    out = []
+    for _ in range(_ri(rng, 1, 3)):
+        base = _pick(rng, items)
+        fam = base["fam"]
+        names = PATH_FIELDS[FAM[fam][0]]
+        key = copy.deepcopy(base["key"]) if rng.random() < 0.7 else pools.key(fam)
+        depth = _ri(rng, 1, len(names) - 1)
+        f = names[depth - 1]
+        if rng.random() < 0.8:
+            if f == "CLASS":
+                fam = "pec_recombination" if fam == "pec_excitation" else "pec_excitation"
+            elif f in _SPECIES_FIELDS:
+                key[f] = pools.sp()
+            elif f in ("q", "rq"):
+                spf = {"q": "sp" if "sp" in key else "tgt", "rq": "rec"}[f]
+                key[f] = pools.charge(key[spf])
+            elif f == "dq":
+                key[f] = pools.charge(key["don"], 0, SPECIES[key["don"]][1] - 1)
+            elif f == "ms":
+                key[f] = _pick(rng, pools.ms)
+            elif f == "tr":
+                key[f] = pools.tr()
+        # components below the empty level are irrelevant but must stay well-formed
+        for spf, qf in (("sp", "q"), ("tgt", "q"), ("rec", "rq")):
+            if spf in key and qf in key and key[qf] > SPECIES[key[spf]][1]:
+                key[qf] = SPECIES[key[spf]][1]
+        if "don" in key and "dq" in key and key["dq"] > SPECIES[key["don"]][1] - 1:
+            key["dq"] = SPECIES[key["don"]][1] - 1
+        out.append({"fam": fam, "key": key, "depth": depth, "pos": _pick(rng, ["first", "last", _ri(rng, 0, len(items))])})
+    return out
+
+
 def _mutate_install(rng, op):
     """Copy of an install operation whose ADF file differs in exactly ONE printed number."""
     new = copy.deepcopy(op)
@@ -386,7 +428,8 @@ def _mutate_install(rng, op):
         else:
             new[which] = float("%.2E" % (new[which] * 1.5))
     new["rewrite"] = which
-    new["via_files"] = bool(rng.random() < 0.3)
+    new["via_files"] = bool(rng.random() < 0.5) if not op.get("via_files") else bool(rng.random() < 0.3)
+    new["files_key"] = _pick(rng, ["lower", "upper", "mixed"])
     new["download"] = ["none", "fetch", "cached"][int(rng.choice(3, p=[0.5, 0.3, 0.2]))]
     return new
 
@@ -543,7 +586,8 @@ def _bad_item(rng, pools, fam, vclass):
 
 def _install_op(rng, pools, big):
     kind = _pick(rng, list(INSTALL_ROUTES))
-    op = {"op": "install", "kind": kind, "via_files": bool(rng.random() < 0.3),
+    op = {"op": "install", "kind": kind, "via_files": bool(rng.random() < 0.35),
+          "files_key": _pick(rng, ["lower", "upper", "mixed"]),
           "download": ["none", "fetch", "cached"][int(rng.choice(3, p=[0.5, 0.3, 0.2]))]}
     lg = lambda lo, hi, n: sorted(round(float(v), 5) for v in rng.uniform(lo, hi, size=n))
     if kind.startswith("adf11"):
@@ -711,6 +755,8 @@ def gen_case(rng, tier):
                     d2, _w = _mutate_one(rng, FAM[h["fam"]][0], h["data"])
                     items.append({"fam": h["fam"], "key": copy.deepcopy(h["key"]), "data": d2})
                 ops.append({"op": "update", "fn": FAM[fam][2], "items": items, "rewrite": what})
+                if rng.random() < 0.25:
+                    ops[-1]["empties"] = _empty_branches(rng, pools, items)
                 for it in items[1:]:
                     remember(it)
             remember(item)
@@ -758,6 +804,8 @@ def gen_case(rng, tier):
                     d2 = _data(rng, FAM[f2][0], vclass, big)
                 items.append({"fam": f2, "key": k2, "data": d2})
             ops.append({"op": "update", "fn": ufn, "items": items})
+            if rng.random() < 0.35:
+                ops[-1]["empties"] = _empty_branches(rng, pools, items)
             for it in items:
                 remember(it)
     probes = []
@@ -823,7 +871,8 @@ def fixed_cases(tier):
     # the same front-ends with download=True: file fetched (fake network) / already cached in the given repository,
     # called directly and through install_files()
     for mode, via, exists in (("fetch", False, False), ("fetch", True, True), ("cached", False, True), ("cached", True, False)):
-        ops2 = [dict(copy.deepcopy(op), download=mode, via_files=via) for op in ops]
+        ops2 = [dict(copy.deepcopy(op), download=mode, via_files=via, files_key=["upper", "mixed", "lower"][i % 3])
+                for i, op in enumerate(ops)]
         cases.append(jsonable({"cls": "install", "repo_exists": exists, "repo_name": "repository", "ops": ops2, "probes": []}))
     # overwrites that differ from the stored data in exactly one component, through add_*, update_* and install_*
     ops = []
@@ -870,6 +919,35 @@ def fixed_cases(tier):
     ops.append(add("beam_emission", {"beam": "deuterium", "tgt": "carbon", "q": 6, "tr": ["03", "2"]},
                    {"e": [2e3], "n": [2e19], "t": [20.0], "sen": [[2e-14]], "st": [2.0], "eref": 1e4, "nref": 1e19, "tref": 100.0, "sref": 1e-14}))
     cases.append({"cls": "transition-alias", "repo_exists": True, "repo_name": "r", "ops": ops, "probes": []})
+    # update dictionaries with an EMPTY branch at every nesting level, placed first / in the middle / last
+    rng = np.random.default_rng(14)
+    pools = _Pools(rng, "mixed")
+    pools.species = ["carbon", "neon", "deuterium"]
+    base_key = {"sp": "carbon", "don": "carbon", "rec": "carbon", "beam": "carbon", "tgt": "carbon", "q": 2, "rq": 2, "dq": 1,
+                "ms": 1, "tr": [3, 2]}
+    alt = {"sp": "neon", "don": "neon", "rec": "neon", "beam": "neon", "tgt": "neon", "q": 1, "rq": 1, "dq": 0, "ms": 0, "tr": [2, 1]}
+    ops = []
+    for fam in FAMILIES:
+        kind = FAM[fam][0]
+        names = [n for n in PATH_FIELDS[kind]]
+        fields = [n for n in names if n != "CLASS"]
+        k1 = {f: copy.deepcopy(base_key[f]) for f in fields}
+        last = fields[-1]
+        k2 = dict(copy.deepcopy(k1), **{last: [4, 2] if last == "tr" else base_key[last] + 1})
+        k3 = dict(copy.deepcopy(k1), **{last: [5, 2] if last == "tr" else base_key[last] + 2})
+        for depth in range(1, len(names)):
+            f = names[depth - 1]
+            for pos in ("first", 1, "last"):
+                ek, efam = copy.deepcopy(k1), fam
+                if f == "CLASS":
+                    efam = "pec_recombination" if fam == "pec_excitation" else "pec_excitation"
+                else:
+                    ek[f] = copy.deepcopy(alt[f])      # sorts before the non-empty siblings where order matters
+                items = [{"fam": fam, "key": copy.deepcopy(k), "data": _data(rng, kind, "normal")} for k in (k1, k2, k3)]
+                ops.append({"op": "update", "fn": FAM[fam][2], "items": items,
+                            "empties": [{"fam": efam, "key": ek, "depth": depth, "pos": pos}]})
+    from vf.core import jsonable as _js
+    cases.append(_js({"cls": "mixed", "repo_exists": True, "repo_name": "repository", "ops": ops, "probes": []}))
     # rejected updates in the middle of a history, every invalidity kind on the beam families
     ops = [add("beam_stopping", {"beam": "deuterium", "tgt": "carbon", "q": 6},
                {"e": [1e3, 1e4], "n": [1e19], "t": [10.0, 100.0, 1000.0], "sen": [[1e-14], [2e-14]], "st": [1.0, 2.0, 3.0],
@@ -973,32 +1051,54 @@ def _nest(d, path, leaf):
     d[path[-1]] = leaf
 
 
-def _build_update(ufn, items):
-    rates = {}
-    for it in items:
-        fam, key = it["fam"], it["key"]
-        kind = FAM[fam][0]
-        rate = _rate_in(kind, it["data"])
-        if kind == "sq":
-            path = [_sp(key["sp"], key, "sp"), key["q"]]
-        elif kind == "tcx":
-            path = [_sp(key["don"], key, "don"), key["dq"], _sp(key["rec"], key, "rec"), key["rq"]]
-        elif kind == "pec":
-            path = [fam.split("_")[1], _sp(key["sp"], key, "sp"), key["q"], _tr(key["tr"])]
-        elif kind == "pectcx":
-            path = [_sp(key["don"], key, "don"), key["dq"], _sp(key["rec"], key, "rec"), key["rq"], _tr(key["tr"])]
-        elif kind == "wl":
-            path = [_sp(key["sp"], key, "sp"), key["q"], _tr(key["tr"])]
-            rate = rate.get("wavelength")
-        elif kind == "bcx":
-            path = [_sp(key["don"], key, "don"), _sp(key["rec"], key, "rec"), key["rq"], _tr(key["tr"]), key["ms"]]
-        elif kind == "stop":
-            path = [_sp(key["beam"], key, "beam"), _sp(key["tgt"], key, "tgt"), key["q"]]
-        elif kind == "pop":
-            path = [_sp(key["beam"], key, "beam"), key["ms"], _sp(key["tgt"], key, "tgt"), key["q"]]
+PATH_FIELDS = {"sq": ["sp", "q"], "tcx": ["don", "dq", "rec", "rq"], "pec": ["CLASS", "sp", "q", "tr"],
+               "pectcx": ["don", "dq", "rec", "rq", "tr"], "wl": ["sp", "q", "tr"], "bcx": ["don", "rec", "rq", "tr", "ms"],
+               "stop": ["beam", "tgt", "q"], "pop": ["beam", "ms", "tgt", "q"], "emis": ["beam", "tgt", "q", "tr"]}
+_SPECIES_FIELDS = ("sp", "don", "rec", "beam", "tgt")
+
+
+def _path(fam, key):
+    """Nesting path of a key inside the dictionary its update_* function takes."""
+    out = []
+    for f in PATH_FIELDS[FAM[fam][0]]:
+        if f == "CLASS":
+            out.append(fam.split("_")[1])
+        elif f in _SPECIES_FIELDS:
+            out.append(_sp(key[f], key, f))
+        elif f == "tr":
+            out.append(_tr(key["tr"]))
         else:
-            path = [_sp(key["beam"], key, "beam"), _sp(key["tgt"], key, "tgt"), key["q"], _tr(key["tr"])]
-        _nest(rates, path, rate)
+            out.append(key[f])
+    return out
+
+
+def _build_update(ufn, items, empties=()):
+    """Nested update dictionary; `empties` adds EMPTY sub-dictionaries (branches without any rate) at the requested
+    nesting depth and position (dict order = insertion order) without disturbing non-empty branches."""
+    entries = []
+    for it in items:
+        kind = FAM[it["fam"]][0]
+        rate = _rate_in(kind, it["data"])
+        if kind == "wl":
+            rate = rate.get("wavelength")
+        entries.append((_path(it["fam"], it["key"]), rate, False))
+    for e in empties:
+        ent = (_path(e["fam"], e["key"])[:e["depth"]], None, True)
+        pos = e.get("pos", "last")
+        if pos == "first":
+            entries.insert(0, ent)
+        elif pos == "last":
+            entries.append(ent)
+        else:
+            entries.insert(min(int(pos), len(entries)), ent)
+    rates = {}
+    for path, leaf, empty in entries:
+        if empty:
+            d = rates
+            for comp in path:
+                d = d.setdefault(comp, {})
+        else:
+            _nest(rates, path, leaf)
     return rates
 
 
@@ -1275,9 +1375,9 @@ class _History:
                 return False
         return True
 
-    def check_never_written(self, fn, touched):
+    def check_never_written(self, fn, touched, extra=()):
         ctx = self.ctx
-        cand = []
+        cand = list(extra)
         hostile = set()
         for fam, ckey in touched:
             for sib in SIBLINGS[fam]:
@@ -1699,10 +1799,42 @@ def _run_history(case, ctx, H, repo_path, adas_dir, home):
         elif kind_op == "update":
             fn = op["fn"]
             ctx.mon("op_update")
-            rates = _build_update(fn, op["items"])
+            empties = op.get("empties") or []
+            rates = _build_update(fn, op["items"], empties)
             written = [(it["fam"], canon_key(it["fam"], it["key"]), _expected(FAM[it["fam"]][0], it["data"])) for it in op["items"]]
+            wkeys = {(w[0], w[1]) for w in written}
+            extra = []
+            if empties:
+                ctx.mon("update_with_empty_branches")
+                ctx.mon("empty_branch", len(empties))
+                for e in empties:
+                    ctx.mon("empty_branch_depth_%d_of_%d" % (e["depth"], len(PATH_FIELDS[FAM[e["fam"]][0]])))
+                    ek = (e["fam"], canon_key(e["fam"], e["key"]))
+                    if ek not in wkeys:
+                        extra.append(ek)       # an empty branch writes nothing: that key keeps its state
             err, ev = _guarded(getattr(_S["repo"], fn), rates, repo_path)
             outside = _judge_audit(ctx, H, fn, ev, repo_path, home)
+            if err is not None and empties:
+                # refusing a dictionary with empty branches by raising is not judged; damage to stored keys is
+                ctx.mon("empty_branch_refused")
+                ctx.skip("%s raised %s for an update dictionary with empty branches (refusal, not judged)" % (fn, type(err).__name__))
+                for fam, ck, val in written:
+                    st, got, _ = H.read_key(fam, ck)
+                    old = H.lookup(fam, ck)
+                    kind = FAM[fam][0]
+                    if st == "ok" and _value_equal(kind, got, val) is None:
+                        H.model[fam][ck] = val
+                    elif (st == "ok" and old is not None and _value_equal(kind, got, old) is None) or (st == "missing" and old is None):
+                        pass
+                    else:
+                        ctx.viol("%s:refused-update-corrupts-its-entry:%s" % (fn, fam),
+                                 "after %s raised on a dictionary with empty branches an entry holds neither its old nor its new content" % fn,
+                                 family=fam, stored_key=repr(ck))
+                        H.dead = True
+                        return
+                if not H.check_others(fn, wkeys, tag="refused-update-changes-other-key"):
+                    return
+                continue
             if err is not None:
                 ctx.viol("%s:valid-write-raises:%s" % (fn, type(err).__name__),
                          "%s raised %s for a valid update dictionary: %s" % (fn, type(err).__name__, str(err)[:200]),
@@ -1719,7 +1851,7 @@ def _run_history(case, ctx, H, repo_path, adas_dir, home):
                 return
             if not H.check_others(fn, {(w[0], w[1]) for w in written}):
                 return
-            if not H.check_never_written(fn, [(w[0], w[1]) for w in written]):
+            if not H.check_never_written(fn, [(w[0], w[1]) for w in written], extra=extra):
                 return
         elif kind_op == "bad":
             fn = op["fn"]
@@ -1919,41 +2051,61 @@ def _do_install(op, ctx, H, repo_path, adas_dir, home, n_file):
             rel = "%s/file%03d.dat" % (kind, n_file)
     args, kw = _install_args(op, rel)
     f = getattr(_S["inst"], fn)
+    text = _adf_text(op)
+
+    def invoke(f, args, kw):
+        devnull = open(os.devnull, "w")
+        out0 = sys.stdout
+        fake = _FakeDownload(text) if dl else None
+        with _Recorder() as rec:
+            sys.stdout = devnull
+            try:
+                if fake is not None:
+                    with fake:
+                        err, ev = _guarded(f, *args, download=True, repository_path=repo_path, adas_path=use_adas, **kw)
+                else:
+                    err, ev = _guarded(f, *args, download=False, repository_path=repo_path, adas_path=use_adas, **kw)
+            finally:
+                sys.stdout = out0
+                devnull.close()
+        dests = None
+        if fake is not None:
+            dests = [d for _, d in fake.fetched if d]
+            ctx.mon("install_download_fetch", len(fake.fetched))
+            for url, d in fake.fetched:
+                ctx.mon("install_download_url_recorded")
+                ctx.notes.setdefault("download_examples", [])
+                if len(ctx.notes["download_examples"]) < 3:
+                    ctx.notes["download_examples"].append({"fn": fn, "url": url, "dest": (d or "").replace(repo_path, "<repo>").replace(home, "$HOME")})
+        outside = _judge_audit(ctx, H, fn, ev, repo_path, home, download_dests=dests)
+        return err, rec, outside, (fake.fetched if fake is not None else [])
+
+    fetched = []
     if op.get("via_files") and not kw.get("header_format"):
-        # same front-end reached through the install_files() dispatcher of install.py
+        # same front-end reached through the install_files() dispatcher of install.py, configuration key in lower,
+        # upper or mixed case (install_files matches its keys case-insensitively)
+        case = op.get("files_key", "lower")
+        ckey = {"lower": kind, "upper": kind.upper(), "mixed": kind[:1].upper() + kind[1:3] + kind[3:].upper()
+                if kind[3:].upper() != kind[3:] else kind.capitalize()}[case]
         ctx.mon("install_via_install_files")
-        config = {kind: (tuple(args),)}
-        args, kw = (config,), {}
-        f = _S["inst"].install_files
-    devnull = open(os.devnull, "w")
-    out0 = sys.stdout
-    fake = _FakeDownload(_adf_text(op)) if dl else None
-    with _Recorder() as rec:
-        sys.stdout = devnull
-        try:
-            if fake is not None:
-                with fake:
-                    err, ev = _guarded(f, *args, download=True, repository_path=repo_path, adas_path=use_adas, **kw)
-            else:
-                err, ev = _guarded(f, *args, download=False, repository_path=repo_path, adas_path=use_adas, **kw)
-        finally:
-            sys.stdout = out0
-            devnull.close()
-    dests = None
-    if fake is not None:
-        dests = [d for _, d in fake.fetched if d]
-        ctx.mon("install_download_fetch", len(fake.fetched))
-        if mode == "cached":
-            if fake.fetched:
-                ctx.skip("file cached under <repository_path>/_download_cache was fetched again (statement silent)")
-            else:
-                ctx.mon("install_download_cache_hit")
-        for url, d in fake.fetched:
-            ctx.mon("install_download_url_recorded")
-            ctx.notes.setdefault("download_examples", [])
-            if len(ctx.notes["download_examples"]) < 3:
-                ctx.notes["download_examples"].append({"fn": fn, "url": url, "dest": (d or "").replace(repo_path, "<repo>").replace(home, "$HOME")})
-    outside = _judge_audit(ctx, H, fn, ev, repo_path, home, download_dests=dests)
+        ctx.mon("install_files_key_" + case)
+        err, rec, outside, fetched = invoke(_S["inst"].install_files, ({ckey: (tuple(args),)},), {})
+        if err is None and not rec.calls:
+            # nothing reached repository.update_*: differential against the direct front-end with the same arguments
+            err2, rec2, outside2, fetched2 = invoke(f, args, kw)
+            if err2 is None and rec2.calls:
+                ctx.viol("install_files:entry-silently-not-installed:key-case-%s" % case,
+                         "install_files({%r: [...]}) returned normally without handing anything to repository.update_*, while %s "
+                         "with the same arguments installs %d key(s): the keys of that file are not readable after the call"
+                         % (ckey, fn, sum(len(c["items"] or []) for c in rec2.calls)), configuration_key=ckey)
+            err, rec, outside, fetched = err2, rec2, outside or outside2, fetched + fetched2
+    else:
+        err, rec, outside, fetched = invoke(f, args, kw)
+    if dl and mode == "cached":
+        if fetched:
+            ctx.skip("file cached under <repository_path>/_download_cache was fetched again (statement silent)")
+        else:
+            ctx.mon("install_download_cache_hit")
     if err is not None:
         # parsing problems belong to C08; C06 only requires that a failed install damaged nothing
         ctx.skip("%s raised %s (parser / install failure, judged by C08)" % (fn, type(err).__name__))
